@@ -1025,4 +1025,30 @@ SEEDS = [
         self.clear_expired(time);""",
          new="""    fn get_value(&mut self, time: E, key: K) -> Option<V> {
         self.clear_expired(key.expiration().min(time));""", note='the purge runs with a time that can lie before the query time'),
+
+    dict(id='PB24-set-lookup-returns-root-value', props=['C05'], file='src/set/tree.rs',
+         old="""                Ordering::Equal => return Some(&node.value),
+                Ordering::Less => index = node.left,
+                Ordering::Greater => index = node.right,
+            }
+        }
+
+        None""",
+         new="""                Ordering::Equal => return Some(&self.node(self.root).value),
+                Ordering::Less => index = node.left,
+                Ordering::Greater => index = node.right,
+            }
+        }
+
+        None""", note='a found key yields the value stored at the root'),
+    dict(id='PB25-set-value-by-index-parent', props=['C08'], file='src/set/tree.rs',
+         old="""    fn value_by_index(&self, index: u32) -> &V {
+        &self.node(index).value""",
+         new="""    fn value_by_index(&self, index: u32) -> &V {
+        let index = self.node(index).left.min(index);
+        &self.node(index).value""", note='reading through a handle yields a neighbouring entry'),
+    dict(id='PB26-map-get-value-wrapper-other-key', props=['C04'], file='src/map/tree.rs',
+         old="""    fn get_value(&self, key: K) -> Option<&V> {""",
+         new="""    fn get_value(&self, key: K) -> Option<&V> {
+        let key = if self.root != EMPTY_REF { self.node(self.root).entity.key.max(key) } else { key };""", note='the wrapper looks up another key than it was asked for'),
 ]
